@@ -167,6 +167,10 @@ def _has_oid_ioc(M, t):
     return t["k"] == "OPEN" and bool(t["comps"][0].get("oid"))
 
 
+def _has_optional_open(M, t):
+    return t["k"] == "SEQUENCE" and bool(t.get("ioc")) and t["comps"][1]["o"] == "O"
+
+
 def _tag_ge_2p30(M, t):
     return t["k"] == "TAGGED" and t["num"] >= 2 ** 30
 
@@ -328,6 +332,7 @@ PREDS = {
     "string_out_of_root": any_leaf(_string_out_of_root),
     "has_set": any_type(_has_set),
     "has_open": any_type(_has_open),
+    "has_optional_open": any_type(_has_optional_open),
     "has_oid_ioc": any_type(_has_oid_ioc),
     "tag_ge_2p30": any_type(_tag_ge_2p30),
     "tagged_choice_ref": any_type(_tagged_choice_ref),
